@@ -66,9 +66,10 @@ def mc_jobs(ctx):
     for w in ("W_NoUnloadAfterActivity", "W_NoShutdownRun", "W_NoClosureHeld"):
         jobs.append((w, {"DeclSet": "{7}", "Name": '{"f"}', "MaxSteps": 4, "Acts": acts("define", "del", "push", "unload")},
                      [w], [], {w}))
-    for w, a in (("W_NoModuleOutlivesImporter", acts("import", "reload")), ("W_NoFailedLoad", acts("reload", "fail"))):
-        jobs.append((w, {"DeclSet": "{12}", "Name": '{"f"}', "Ctx": '{"c1", "c4"}', "Vias": '{"run"}', "MaxSteps": 2, "Acts": a},
-                     [w], [], {w}))
+    # round 3: import inside a running function, importer reloaded (module lives on), then a load that fails
+    w = "W_NoModuleOutlivesImporterNorFailedLoad"
+    jobs.append((w, {"DeclSet": "{12}", "Name": '{"f"}', "Ctx": '{"c1", "c4"}', "Vias": '{"run"}', "MaxSteps": 3,
+                     "Acts": acts("import", "reload", "fail")}, [w], [], {w}))
     return jobs
 
 
@@ -76,5 +77,5 @@ def main(ctx):
     sizes = {"sim": ctx.pick(6, 120), "depth": ctx.pick(8, 14), "rnd": ctx.pick(10, 150), "steps": ctx.pick(18, 40),
              "simsplit": ctx.pick(3, 6), "race": ctx.pick(6, 80)}
     L.main_common(ctx, "C09", mc_jobs(ctx),
-                  {"MaxGen": 8, "DeclSet": "{1, 4, 6, 7, 8, 9, 11, 12, 13}" if ctx.quick else "AllDecls",
-                   "DeclSet_masked": "{1, 4, 7, 8, 10, 13, 16}" if ctx.quick else "MaskedDecls"}, L.DECL_POOL, sizes)
+                  {"MaxGen": 8, "DeclSet": "{1, 4, 6, 7, 8, 9, 11, 12, 13, 18, 20}" if ctx.quick else "AllDecls",
+                   "DeclSet_masked": "{1, 4, 7, 8, 10, 11, 13, 16, 19}" if ctx.quick else "MaskedDecls"}, L.DECL_POOL, sizes)
